@@ -2,24 +2,24 @@ package websocket
 
 // Exported doors for the harnesses that live in package wsjson (they cannot reach unexported identifiers).
 
-func VerifBytes(tag string, n int) []byte     { return vBytes(tag, n) }
-func VerifChoose(tag string, n int) int       { return vChoose(tag, n) }
-func VerifParam(name string, def int) int     { return vParam(name, def) }
-func VerifAssert(c bool, id string)           { vAssert(c, id) }
-func VerifReach(id string)                    { vReach(id) }
-func VerifClassify(k, v string)               { vClassify(k, v) }
-func VerifObserve(tag string, vals ...any)    { vObserve(tag, vals...) }
-func VerifEqBytes(a, b []byte) bool           { return vEqBytes(a, b) }
-func VerifAnd(a, b bool) bool                 { return vAnd(a, b) }
-func VerifReset(vals map[string][]uint64)     { vReset(vals) }
-func VerifSetParams(p map[string]int)         { vParams = p }
-func VerifFailures() []string                 { return vFailures }
-func VerifReached() map[string]bool           { return vReachedIDs }
-func VerifObserved() []string                 { return vObserved }
-func VerifReplayShort() bool                  { return vReplayShort }
-func VerifIsAssumeViolated(r any) bool        { _, ok := r.(vAssumeViolated); return ok }
-func VerifGhostPoolMode(mode int)             { vGhostPoolMode(mode) }
-func VerifWireSummary(out []byte) []byte      { return vWireSummary(out) }
+func VerifBytes(tag string, n int) []byte  { return vBytes(tag, n) }
+func VerifChoose(tag string, n int) int    { return vChoose(tag, n) }
+func VerifParam(name string, def int) int  { return vParam(name, def) }
+func VerifAssert(c bool, id string)        { vAssert(c, id) }
+func VerifReach(id string)                 { vReach(id) }
+func VerifClassify(k, v string)            { vClassify(k, v) }
+func VerifObserve(tag string, vals ...any) { vObserve(tag, vals...) }
+func VerifEqBytes(a, b []byte) bool        { return vEqBytes(a, b) }
+func VerifAnd(a, b bool) bool              { return vAnd(a, b) }
+func VerifReset(vals map[string][]uint64)  { vReset(vals) }
+func VerifSetParams(p map[string]int)      { vParams = p }
+func VerifFailures() []string              { return vFailures }
+func VerifReached() map[string]bool        { return vReachedIDs }
+func VerifObserved() []string              { return vObserved }
+func VerifReplayShort() bool               { return vReplayShort }
+func VerifIsAssumeViolated(r any) bool     { _, ok := r.(vAssumeViolated); return ok }
+func VerifGhostPoolMode(mode int)          { vGhostPoolMode(mode) }
+func VerifWireSummary(out []byte) []byte   { return vWireSummary(out) }
 
 // VerifScriptedConn builds a Conn of the given role over a scripted transport fed with frames carrying the given
 // payloads: each message is split into fragments at the given cut offsets. It returns the Conn and an accessor for the
